@@ -123,6 +123,14 @@ CLAIMED["C04"] = {
     "technique": "layout tables + accessor read-sets (return term -> offset/width) + getter/ID tables + structural term matching of compound decoders",
 }
 
+CLAIMED["C11"] = {
+    "category": "other",
+    "text": "Compiler layouts of Multiboot2BasicHeader, HeaderTagHeader and all 11 header-tag structs and the discriminants of the four wire enums against hand-written multiboot2.h tables; the return term of every public accessor (55) resolved to (offset, width) and compared with the accessor table; the 10 typed getters are get_tag::<T>() with T::ID the variant of the kind's number; the polymorphic get_tag = iter().find(type equality).map(cast::<T>); iter() walks exactly the payload from byte 16; the tag walk's transition premises for HeaderTagHeader (step = round8(offset + size)).",
+    "design_ref": "DESIGN.md §4 C11",
+    "note": TB + "; imports C15; first-match selection is Iterator::find",
+    "technique": "layout tables + accessor read-sets + getter/ID tables + iterator transition terms",
+}
+
 PENDING = "check not yet built in this session (machinery under construction; see DESIGN.md §9 build order) - not claimed until its premises run, pass on the repaired tree and fire on seeded breaks"
 NOT_APPLICABLE = {("C%02d" % i): PENDING for i in range(1, 21)}
 
